@@ -560,7 +560,11 @@ func (vc *VC) resolveLoopShapes() {
 }
 
 var callsumRe = regexp.MustCompile(`callsum\("([^"]+)"\s*,\s*(\d+)\)`)
-var callsRe = regexp.MustCompile(`(?:calls|callarg)\("([^"]+)"(?:\s*,\s*[^,)]+\s*,\s*(\d+))?`)
+var callsRe = regexp.MustCompile(`(?:calls|callarg|callres)\("([^"]+)"(?:\s*,\s*[^,)]+\s*,\s*(\d+))?`)
+var callresRe = regexp.MustCompile(`callres\("([^"]+)"`)
+
+// resultSlot is the pseudo parameter index under which the first result of a recorded call is kept
+const resultSlot = 99
 
 func (e *Engine) verifyFunction(fc *FuncContract) (*VC, error) {
 	fnKey := fc.Key
@@ -630,6 +634,15 @@ func (e *Engine) verifyFunction(fc *FuncContract) (*VC, error) {
 				vc.eventArgTypes[key] = p.Type()
 				vc.eventArg(name, i)
 			}
+		}
+	}
+	for _, t := range texts {
+		for _, m := range callresRe.FindAllStringSubmatch(t, -1) {
+			key := fmt.Sprintf("G_arg_%s_%d", sanitizeID(m[1]), resultSlot)
+			if target := e.fnByShort(m[1]); target != nil && target.Signature.Results().Len() > 0 {
+				vc.eventArgTypes[key] = target.Signature.Results().At(0).Type()
+			}
+			vc.eventArg(m[1], resultSlot)
 		}
 	}
 	st := &State{pc: "true", vars: map[string]string{}}
